@@ -7,6 +7,16 @@ The property's own quantifier is *histories*.  Two domains:
   the second, 1 afterwards); thorough tier adds every sequence of kinds of length <= 4 with (2, 1, 1, 1) instances;
 * 200 / 5000 seeded random histories of length 30 on corpus molecules (alphabet + the remaining public mutators of DESIGN 1.6).
 
+Options and input classes of the alphabet (coverage audit): add_atom by symbol / atomic number / Element object with charge, isotope or
+radical, with and without an explicit atom number (gap above the maximum, > 999, lowest unused); add_bond with orders 1, 2, 3, 8 and a Bond
+object; charges -2..2; isotope labels (inside a transaction); remap by full permutations, shifts by 10 and 1000, descending renumbering and
+partial mappings; union by `|`, `|=`, union(remap=True / disjoint numbers with remap=False, copy=True / False); substructure with both
+recalculate_hydrogens values (False only for bond-closed atom sets, what split() does), `&`, `-`, augmented_substructure; every public
+keyword of explicify / implicify / kekule / thiele and of the further mutators (X_VARIANTS).  Before the hydrogen / aromaticity kinds and
+the further mutators EVERY memoised member of the class is read (oracles/o13_allkeys: the list is taken from the class) and compared
+afterwards (tree: half of these steps, random histories: 70 %).  Half of the corpus molecules carry seeded 2D coordinates (so that
+calculate_cis_trans_from_2d and the depiction cache take part).  Further domains: bounded/d13_extra.py (parts X, T, K).
+
 Between operations a seeded subset of the derived views is read (sometimes none, sometimes all) so that a stale cache entry is
 observable; after every operation ALL views are compared with a molecule rebuilt from scratch through add_atom/add_bond with the
 same atoms, bonds, hydrogen counts, stereo labels and insertion order (`oracles/o13_views.rebuilt`).
@@ -39,7 +49,9 @@ from vlib import env
 from vlib.report import pmap
 
 RULE = ('bounded: operation-kind sequences <= 3/4 on 7 seed molecules (exhaustive in kinds, seeded parameters) + seeded random '
-        'histories of length 30 on corpus molecules; all derived views vs an independent rebuild after every operation')
+        'histories of length 30 on corpus molecules; all derived views vs an independent rebuild after every operation; '
+        'every (mutator outside engine F, keyword combination) with the whole cache warm; transaction blocks (flat, nested, exception sources) '
+        'vs a model; copies / substructures / unions from warm and cold sources with every keep_* flag')
 
 SEEDS = [('ethanol', 'CCO'), ('benzene', 'c1ccccc1'), ('pyridine', 'c1ccncc1'), ('cpca', 'OC(=O)C1CC1'),
          ('stereocentre', 'C[C@H](N)O'), ('alkene', 'C/C=C/C'), ('salt', '[Na+].[O-]C')]
@@ -49,7 +61,29 @@ KINDS = ('add_atom', 'add_bond', 'delete_atom', 'delete_bond', 'charge', 'radica
 FAIL_VARIANTS = ('add', 'del_atom', 'del_bond', 'charge', 'meta', 'mix')
 # remaining public mutators of DESIGN 1.6 (engine F's list) - random histories only, only on valence-valid molecules
 EXT_KINDS = ('x_standardize', 'x_canonicalize', 'x_fix_resonance', 'x_neutralize', 'x_standardize_charges', 'x_clean_stereo',
-             'x_clean_isotopes', 'x_remove_metals', 'x_remove_acids', 'x_split_metal_salts', 'x_remove_coordinate_bonds')
+             'x_clean_isotopes', 'x_remove_metals', 'x_remove_acids', 'x_split_metal_salts', 'x_remove_coordinate_bonds',
+             'x_calculate_cis_trans_from_2d', 'x_flush_cache', 'x_fix_structure', 'x_calc_labels', 'x_fix_stereo')
+_TF = (True, False)
+# every public keyword of the mutators above (the histories choose one combination by seed; bounded/d13_extra.py runs all of them)
+X_VARIANTS = {
+    'x_canonicalize': [dict(fix_tautomers=a, keep_kekule=b, logging=c) for a in _TF for b in _TF for c in _TF],
+    'x_standardize': [dict(fix_tautomers=a, logging=c) for a in _TF for c in _TF],
+    'x_standardize_charges': [dict(prepare_molecule=a, logging=c) for a in _TF for c in _TF],
+    'x_neutralize': [dict(keep_charge=a, logging=c) for a in _TF for c in _TF],
+    'x_fix_resonance': [dict(logging=c) for c in _TF],
+    'x_remove_metals': [dict(logging=c) for c in _TF],
+    'x_remove_acids': [dict(logging=c) for c in _TF],
+    'x_split_metal_salts': [dict(logging=c) for c in _TF],
+    'x_remove_coordinate_bonds': [dict(keep_to_terminal=c) for c in _TF],
+    'x_calculate_cis_trans_from_2d': [dict(), dict(clean_cache=True)],
+    'x_flush_cache': [dict(keep_sssr=a, keep_components=b) for a in _TF for b in _TF],  # without an edit: must change nothing observable
+    'x_fix_structure': [dict(), dict(recalculate_hydrogens=False)],  # public; named by the property among the mutators that must invalidate
+    'implicify': [dict(), dict(logging=True)],
+    'explicify': [dict(), dict(start_map='max+1'), dict(start_map='max+40')],
+    'thiele': [dict(), dict(fix_tautomers=False)],
+    'kekule': [dict(), dict(buffer_size=2)],
+}
+ALLKEY_KINDS = ('implicify', 'explicify', 'kekule', 'thiele')  # + every x_ kind: histories warm EVERY cached member before them
 
 # documented exceptions: op kind -> [(class name, precondition key, text)]; legitimate only when the precondition holds on the pre-state
 _AROM = ('InvalidAromaticRing', 'aromatic', 'the molecule has aromatic (order 4) bonds - raised when no Kekule form exists')
@@ -67,8 +101,9 @@ class _Boom(Exception):
 
 
 def _imports():
-    global V, parse, smiles, MoleculeContainer
+    global V, K, parse, smiles, MoleculeContainer
     from oracles import o13_views as V
+    from oracles import o13_allkeys as K
     from bounded.domains import parse
     from chython import smiles, MoleculeContainer
 
@@ -101,7 +136,9 @@ def op_text(op):
     if k == 'remap':
         return 'remap(' + ','.join(f'{a}>{b}' for a, b in op[1]) + ')'
     if k == 'sub':
-        return 'sub(' + ','.join(map(str, op[1])) + ')'
+        return 'sub(' + ','.join(map(str, op[1])) + ''.join(f';{x}' for x in op[2:]) + ')'
+    if len(op) == 2 and isinstance(op[1], tuple) and (k.startswith('x_') or k in X_VARIANTS):
+        return k + '(' + ','.join(f'{a}={b}' for a, b in op[1]) + ')'
     return k + ('(' + ','.join(str(x) for x in op[1:]) + ')' if len(op) > 1 else '')
 
 
@@ -112,31 +149,78 @@ def history_key(seed, ops):
 # ---------------------------------------------------------------------------------------------------------------------------
 # parameter candidates of every kind on the current molecule
 # ---------------------------------------------------------------------------------------------------------------------------
+ADD_SPECS = ('C', 'N', 'O', 'N+', 'O-', '13C', 'C.', 8, 16)  # symbol, Element object (charge / isotope / radical), atomic number
+
+
+def _element(spec):
+    """(argument for add_atom, expected (Z, isotope, charge, radical))"""
+    from chython.periodictable import Element
+    if isinstance(spec, int):
+        return spec, (spec, None, 0, False)
+    z = {'C': 6, 'N': 7, 'O': 8}
+    if spec in z:
+        return spec, (z[spec], None, 0, False)
+    if spec == 'N+':
+        return Element.from_symbol('N')(charge=1), (7, None, 1, False)
+    if spec == 'O-':
+        return Element.from_symbol('O')(charge=-1), (8, None, -1, False)
+    if spec == '13C':
+        return Element.from_symbol('C')(13), (6, 13, 0, False)
+    if spec == 'C.':
+        return Element.from_symbol('C')(is_radical=True), (6, None, 0, True)
+    raise AssertionError(spec)
+
+
+def _free_numbers(atoms):
+    """explicit atom numbers for add_atom: a gap above the maximum, a number > 999, the lowest unused number (below the maximum if any)"""
+    mx = max(atoms, default=0)
+    low = next(i for i in range(1, mx + 2) if i not in atoms)
+    return sorted({mx + 7, mx + 1000, low})
+
+
+def _ball(m, core, deep):
+    """independent expectation of augmented_substructure: atoms within `deep` bonds of the core"""
+    cur = set(core)
+    for _ in range(deep):
+        cur |= {k for n in cur for k in m._bonds[n]}
+    return cur
+
+
 def candidates(m, kind, rng):
     atoms = list(m._atoms)
     if kind == 'add_atom':
-        return [('add_atom', e) for e in ('C', 'N', 'O')]
+        return [('add_atom', e) for e in ADD_SPECS] + [('add_atom', e, n) for e in ('C', 'N+') for n in _free_numbers(m._atoms)]
     if kind == 'add_bond':
-        return [('add_bond', a, b, o) for i, a in enumerate(atoms) for b in atoms[i + 1:] if b not in m._bonds[a] for o in (1, 2)]
+        return [('add_bond', a, b, o) for i, a in enumerate(atoms) for b in atoms[i + 1:] if b not in m._bonds[a]
+                for o in (1, 2, 1, 2, 3, 8, 'B1', 'B2')]
     if kind == 'delete_atom':
         return [('delete_atom', n) for n in atoms] if len(atoms) > 1 else []
     if kind == 'delete_bond':
         return [('delete_bond', a, b) for a, b, _ in m.bonds()]
     if kind == 'charge':
-        return [('charge', n, c) for n in atoms for c in (-1, 0, 1) if c != m._atoms[n].charge]
+        return [('charge', n, c) for n in atoms for c in (-1, 0, 1, -1, 0, 1, -2, 2) if c != m._atoms[n].charge]
     if kind == 'radical':
-        return [('radical', n) for n in atoms]
+        out = [('radical', n) for n in atoms] * 2
+        for n in atoms:
+            a = m._atoms[n]
+            iso = sorted(a.isotopes_distribution)
+            out.append(('isotope', n, None if a.isotope is not None else iso[-1]))
+        return out
     if kind == 'fail':
         return [('fail', v, rng.choice(atoms)) for v in FAIL_VARIANTS]
     if kind == 'remap':
         out = []
-        for shift in (0, 10):
+        for shift in (0, 10, 1000):
             t = [n + shift for n in atoms]
             rng.shuffle(t)
             out.append(('remap', tuple(zip(atoms, t))))
+        mx = max(atoms)
+        out.append(('remap', tuple((n, 2 * mx + 1 - n) for n in atoms)))  # descending: insertion order != numeric order
+        part = rng.sample(atoms, max(1, len(atoms) // 2))  # partial mapping: the other atoms keep their numbers
+        out.append(('remap', tuple((n, mx + 3 + 2 * i) for i, n in enumerate(part))))
         return out
     if kind in ('union_or', 'union_inplace'):
-        return [(kind, s) for s in OTHERS]
+        return [(kind, s) for s in OTHERS] + [(kind, s, 'disjoint') for s in OTHERS] + [(kind, s, 'operator') for s in OTHERS]
     if kind == 'sub':
         out = set()
         for _ in range(6):
@@ -144,13 +228,23 @@ def candidates(m, kind, rng):
             out.add(tuple(sorted(rng.sample(atoms, k))))
         for c in m.copy().connected_components:  # whole components too (split() does that)
             out.add(tuple(sorted(c)))
-        return [('sub', s) for s in sorted(out)]
+        out = sorted(out)
+        # recalculate_hydrogens=False carries the stored counts over: meaningful only when no bond is cut (what split() does)
+        closed = [s for s in out if all(set(m._bonds[n]) <= set(s) for n in s)]
+        res = [('sub', s) for s in out] + [('sub', s, 'keep-h') for s in closed] + [('sub', s, 'and') for s in out[:2]]
+        res += [('sub', s, 'minus') for s in out[:2] if len(s) < len(atoms)]
+        res += [('sub', s, 'aug', d) for s in out[:2] for d in (1, 2)]
+        return res
+    if kind in X_VARIANTS:
+        return [(kind, tuple(sorted(v.items()))) if v else (kind,) for v in X_VARIANTS[kind]]
     return [(kind,)]
 
 
 def choose(m, kind, rng, width):
     c = candidates(m, kind, rng)
     rng.shuffle(c)
+    if kind in X_VARIANTS:  # keyword variants of one parameterless mutator: one seeded variant per node (all of them: part X)
+        width = 1
     return c[:width]
 
 
@@ -172,6 +266,26 @@ class Outcome:
         self.raised = None
         self.note = None
         self.stereo = None      # expected stereo labels ({atom: sign}, {pair: sign}) where the operation must keep them
+
+
+def fix_structure_changes_hydrogens(m, kw):
+    """predicate on the input of fix_structure(): some stored hydrogen count differs from the one calc_implicit computes (aromatic
+    heteroatoms of a Thiele form, atoms of a substructure made with recalculate_hydrogens=False): the call then CHANGES the molecule"""
+    if kw.get('recalculate_hydrogens') is False:
+        return False
+    c = m.copy()
+    for n in c._atoms:
+        c.calc_implicit(n)
+    return any(a.implicit_hydrogens != m._atoms[n].implicit_hydrogens for n, a in c._atoms.items())
+
+
+def collapse(probs, tag):
+    """one family for one root cause that many views notice (the family is decided by a predicate on the input, see the callers)"""
+    st = [(f, d) for f, d in probs if f.startswith('stale:')]
+    if not st:
+        return probs
+    rest = [(f, d) for f, d in probs if not f.startswith('stale:')]
+    return rest + [('stale:views', f'{len(st)} derived values out of date ({", ".join(f[6:] for f, _ in st)[:200]}): {st[0][1]}')]
 
 
 def _has_aromatic(m):
@@ -200,23 +314,31 @@ def apply_op(m, op):
     st_a, st_b = V.stereo_labels(m)
     try:
         if kind == 'add_atom':
-            n = m.add_atom(op[1])
-            z = {'C': 6, 'N': 7, 'O': 8}[op[1]]
-            if n != max(atoms0, default=0) + 1:
+            arg, rec = _element(op[1])
+            n = m.add_atom(arg, op[2]) if len(op) > 2 else m.add_atom(arg)
+            if n != (op[2] if len(op) > 2 else max(atoms0, default=0) + 1):
                 out.problems.append(('frame:new-atom-number', f'add_atom returned {n}'))
-            atoms0[n] = (z, None, 0, False)
+            atoms0[n] = rec
             out.expect = (atoms0, bonds0)
             out.must = {n}
             out.stereo = (st_a, st_b)  # an isolated new atom changes no centre
         elif kind == 'add_bond':
             _, a, b, o = op
-            m.add_bond(a, b, o)
+            if isinstance(o, str):  # a Bond object instead of an order
+                from chython.containers.bonds import Bond
+                o = int(o[1:])
+                m.add_bond(a, b, Bond(o))
+            else:
+                m.add_bond(a, b, o)
             bonds0[frozenset((a, b))] = o
             out.expect = (atoms0, bonds0)
-            out.must = {a, b}
+            out.must = {a, b} if o != 8 else set()  # a coordinate bond changes no hydrogen count
+            if o == 8:
+                out.hmode = 'same'
+                out.stereo = (st_a, st_b)  # "any bond doesn't change hydrogens and stereo" (add_bond)
         elif kind == 'delete_atom':
             n = op[1]
-            nb = set(m._bonds[n])
+            nb = {k for k, b in m._bonds[n].items() if b.order != 8}  # a coordinate bond carries no hydrogen bookkeeping
             m.delete_atom(n)
             del atoms0[n]
             out.expect = (atoms0, {k: v for k, v in bonds0.items() if n not in k})
@@ -224,9 +346,9 @@ def apply_op(m, op):
         elif kind == 'delete_bond':
             _, a, b = op
             m.delete_bond(a, b)
+            out.must = {a, b} if bonds0[frozenset((a, b))] != 8 else set()
             del bonds0[frozenset((a, b))]
             out.expect = (atoms0, bonds0)
-            out.must = {a, b}
         elif kind == 'charge':
             _, n, c = op
             with m:
@@ -243,6 +365,13 @@ def apply_op(m, op):
             atoms0[n] = (z, i, c, not r)
             out.expect = (atoms0, bonds0)
             out.must = {n}
+        elif kind == 'isotope':
+            _, n, iso = op
+            with m:
+                m.atom(n).isotope = iso
+            z, _, c, r = atoms0[n]
+            atoms0[n] = (z, iso, c, r)
+            out.expect = (atoms0, bonds0)  # hydrogens: default contract (every atom keeps its count or gets the fresh one)
         elif kind == 'fail':
             _, variant, a = op
             try:
@@ -274,6 +403,7 @@ def apply_op(m, op):
         elif kind == 'remap':
             mp = dict(op[1])
             m.remap(mp)
+            mp = {n: mp.get(n, n) for n in atoms0}  # atoms not named keep their number
             out.expect = ({mp[n]: v for n, v in atoms0.items()}, {frozenset(mp[x] for x in k): v for k, v in bonds0.items()})
             out.hmap = {v: k for k, v in mp.items()}
             out.hmode = 'same'
@@ -283,7 +413,21 @@ def apply_op(m, op):
             oraw = V.raw_snapshot(other)
             oa, ob = gstate(other)
             oh = hstate(other)
-            u = (m | other) if kind == 'union_or' else m.union(other, remap=True, copy=False)
+            how = op[2] if len(op) > 2 else 'remap'
+            if how == 'disjoint':  # numbers made disjoint beforehand, remap=False
+                base = max(max(atoms0), max(oa)) + 50
+                other.remap({n: base + 3 * i for i, n in enumerate(reversed(list(oa)))})
+                oraw = V.raw_snapshot(other)
+                oa, ob = gstate(other)
+                oh = hstate(other)
+                u = m.union(other, remap=False, copy=kind == 'union_or')
+            elif how == 'operator' and kind == 'union_inplace':
+                u = m
+                u |= other
+            elif how == 'operator':
+                u = m.union(other, remap=True)  # copy=True is the default
+            else:
+                u = (m | other) if kind == 'union_or' else m.union(other, remap=True, copy=False)
             if kind == 'union_inplace' and u is not m:
                 out.problems.append(('frame:union-inplace-returns-other-object', 'union(copy=False) did not return self'))
             if kind == 'union_or' and u is m:
@@ -309,10 +453,23 @@ def apply_op(m, op):
                 out.sources = [('union-source', m)]
         elif kind == 'sub':
             keep = set(op[1])
-            s = m.substructure(list(op[1]))
+            how = op[2] if len(op) > 2 else 'default'
+            if how == 'keep-h':
+                s = m.substructure(list(op[1]), recalculate_hydrogens=False)
+                out.hmode = 'same'  # the stored counts are carried over
+            elif how == 'and':
+                s = m & set(op[1])
+            elif how == 'minus':
+                s = m - [n for n in atoms0 if n not in keep]
+            elif how == 'aug':
+                keep = _ball(m, op[1], op[3])
+                s = m.augmented_substructure(op[1], deep=op[3])
+            else:
+                s = m.substructure(list(op[1]))
             out.obj = s
             out.expect = ({n: v for n, v in atoms0.items() if n in keep}, {k: v for k, v in bonds0.items() if k <= keep})
-            out.must = set(keep)  # recalculate_hydrogens=True (default): "calculate implicit H count in substructure"
+            if how != 'keep-h':
+                out.must = set(keep)  # recalculate_hydrogens=True (default): "calculate implicit H count in substructure"
             if all(set(m._bonds[n]) <= keep for n in keep):  # whole components (what split() does): every centre keeps its environment
                 out.stereo = ({n: v for n, v in st_a.items() if n in keep}, {k: v for k, v in st_b.items() if k <= keep})
             out.fresh = [('source', m)]
@@ -333,8 +490,11 @@ def apply_op(m, op):
         elif kind == 'explicify':
             th = total_h(m)
             h0 = hstate(m)
-            k = m.explicify_hydrogens()
+            kw = dict(op[1]) if len(op) > 1 else {}
             nxt = max(atoms0, default=0) + 1
+            if 'start_map' in kw:
+                nxt = kw['start_map'] = max(atoms0, default=0) + int(kw['start_map'][3:])
+            k = m.explicify_hydrogens(**kw)
             for n, h in h0.items():
                 for _ in range(h):
                     atoms0[nxt] = (1, None, 0, False)
@@ -352,7 +512,10 @@ def apply_op(m, op):
                     break
         elif kind == 'implicify':
             th = total_h(m)
-            k = m.implicify_hydrogens()
+            kw = dict(op[1]) if len(op) > 1 else {}
+            k = m.implicify_hydrogens(**kw)
+            if kw.get('logging'):
+                k = k[0]
             a1, b1 = gstate(m)
             gone = set(atoms0) - set(a1)
             bad = [n for n in gone if atoms0[n][0] != 1 or atoms0[n][1] not in (None, 1)
@@ -363,10 +526,23 @@ def apply_op(m, op):
                           {e: v for e, v in bonds0.items() if not (e & gone)})
             out.hmode = 'total'
             out.note = ('total', th)
-            out.stereo = (st_a, st_b)
+            if not any(atoms0[n][2] or atoms0[n][3] for n in gone):  # a removed charged / radical hydrogen changes its centre's environment
+                # the signs refer to the heavy neighbours, which do not change; a centre whose arms differed only in explicit vs implicit
+                # hydrogens stops being stereogenic: expected = the old labels that fix_stereo() keeps on a fresh rebuild of the result
+                r = V.rebuild_ordered(m)
+                for n, sg in st_a.items():
+                    if n in r._atoms:
+                        r._atoms[n]._stereo = sg
+                for e, sg in st_b.items():
+                    x, y = tuple(e)
+                    if x in r._bonds and y in r._bonds[x]:
+                        r._bonds[x][y]._stereo = sg
+                r.flush_cache()
+                r.fix_stereo()
+                out.stereo = V.stereo_labels(r)
         elif kind == 'kekule':
             arom = {n for e, o in bonds0.items() if o == 4 for n in e}
-            m.kekule()
+            m.kekule(**(dict(op[1]) if len(op) > 1 else {}))
             a1, b1 = gstate(m)
             if set(b1) != set(bonds0) or {n: v[:2] + v[3:] for n, v in a1.items()} != {n: v[:2] + v[3:] for n, v in atoms0.items()}:
                 out.problems.append(('frame:kekule-changed-graph', 'kekule changed atoms or the set of bonded pairs'))
@@ -377,15 +553,22 @@ def apply_op(m, op):
             out.must = arom
         elif kind == 'thiele':
             h0 = hstate(m)
-            m.thiele()
+            m.thiele(**(dict(op[1]) if len(op) > 1 else {}))
             a1, b1 = gstate(m)
             if set(b1) != set(bonds0) or a1 != atoms0:
                 out.problems.append(('frame:thiele-changed-graph', 'thiele changed atoms or the set of bonded pairs'))
             out.hmode = 'sum'
             out.note = ('sum', h0)
         elif kind.startswith('x_'):
-            getattr(m, kind[2:])()
+            kw = dict(op[1]) if len(op) > 1 else {}
+            if kind == 'x_fix_structure' and fix_structure_changes_hydrogens(m, kw):
+                out.note = ('collapse', 'fix_structure:changes-hydrogens')
+            getattr(m, kind[2:])(**kw)
             out.hmode = 'skip'
+            if kind == 'x_flush_cache':  # no edit in between: nothing observable may change
+                out.expect = (atoms0, bonds0)
+                out.hmode = 'same'
+                out.stereo = (st_a, st_b)
         else:
             raise AssertionError(kind)
     except _Boom:
@@ -437,8 +620,9 @@ class _Pre:
 # ---------------------------------------------------------------------------------------------------------------------------
 # generic post-conditions
 # ---------------------------------------------------------------------------------------------------------------------------
-def coherence(m, names=None):
-    """compare views / labels / stereo of m with the independent rebuild; returns (problems, calc hydrogens, views read)"""
+def coherence(m, names=None, allkeys=False):
+    """compare views / labels / stereo of m with the independent rebuild; returns (problems, calc hydrogens, views read)
+    allkeys: additionally EVERY memoised member of the class (oracles/o13_allkeys) is read on both and compared"""
     probs = []
     for d in V.adjacency_defects(m):
         probs.append(('adjacency', d))
@@ -455,6 +639,12 @@ def coherence(m, names=None):
     for k in names:
         if mine[k] != ref[k]:
             probs.append((f'stale:{k}', f'{k}: molecule {_short(mine[k])} rebuilt {_short(ref[k])}'))
+    if allkeys:
+        stale = {f for f, _ in probs}
+        alias = {'__str__()': 'str', '__hash__()': 'str', 'smiles_atoms_order': 'str'}  # one memo family: reported once, as the view
+        for k, a, b in K.compare(m, r):
+            if f'stale:{alias.get(k, k)}' not in stale:  # a member that is also a view is reported once, under the view's family
+                probs.append((f'stale:{k}' if k in V.VIEWS else f'stale:key.{k}', f'{k}: molecule {_short(a)} rebuilt {_short(b)}'))
     (la, lb), (ra, rb) = V.labels_snapshot(m), V.labels_snapshot(r)
     fields = ('hybridization', 'in_ring', 'ring_sizes', 'neighbors', 'heteroatoms', 'explicit_hydrogens')
     for i, f in enumerate(fields):
@@ -607,8 +797,9 @@ def pick_reads(rng):
     return tuple(names)
 
 
-def step(st, op, reads, on_copy, full=True, check_names=None):
-    """returns (new State, problems [(family, detail)], changed?)"""
+def step(st, op, reads, on_copy, full=True, check_names=None, allkeys=False):
+    """returns (new State, problems [(family, detail)], changed?)
+    allkeys: every memoised member is read before the operation (whole cache warm) and compared with the rebuild afterwards"""
     probs = []
     m = st.cur
     if on_copy:
@@ -620,11 +811,18 @@ def step(st, op, reads, on_copy, full=True, check_names=None):
         if st.views is not None and v in st.views and val != st.views[v]:
             probs.append((f'stale:{v}@{"copy" if on_copy else st.last}', f'{v} read before {op_text(op)}: {_short(val)} expected {_short(st.views[v])}'))
     kind = op[0]
+    if allkeys:
+        K.warm(m)
     h_pre = hstate(m)
     g_pre = gstate(m)
+    has_radical = any(v[3] for v in g_pre[0].values())
     out = apply_op(m, op)
     obj = out.obj
     tag = kind[2:] if kind.startswith('x_') else kind
+    if kind == 'add_bond' and op[3] == 8:
+        tag = 'add_bond:coordinate'  # own family: add_bond leaves early for order 8 (no fix_structure / fix_stereo)
+    if kind == 'thiele' and has_radical:
+        tag = 'thiele:radical'  # own family: aromatisation of radicals (the tautomer repair of condensed pyrroles counts hydrogens it does not have)
     probs += [(f'{f}@{tag}', d) for f, d in out.problems]
     if out.expect is not None:
         g = gstate(obj)
@@ -640,7 +838,10 @@ def step(st, op, reads, on_copy, full=True, check_names=None):
             lost = sorted(set(out.stereo[0]) - set(got[0])) + [sorted(e) for e in set(out.stereo[1]) - set(got[1])]
             probs.append((f'frame:stereo@{tag}', f'stereo labels changed by {op_text(op)}: lost {lost[:4]}, expected {_short(out.stereo)} got {_short(got)}'))
     names = None if full else check_names
-    p, calc, views = coherence(obj, names)
+    p, calc, views = coherence(obj, names, allkeys=allkeys)
+    if out.note and out.note[0] == 'collapse':
+        tag = out.note[1]
+        p = collapse(p, tag)
     if p and out.raised and out.note and out.note[0] == 'documented-exception':
         # one root cause: the documented exception left the molecule half edited
         p = [(f'partial:{out.raised}', f'{out.raised} raised by {op_text(op)} left the molecule incoherent: ' +
@@ -675,6 +876,20 @@ def _seed_molecule(name, smi):
 
 def _digest(s):
     return hashlib.blake2b(s.encode(), digest_size=6).digest()
+
+
+def lay_out(m, key, always=False):
+    """seeded 2D coordinates (a function of the text `key` only, so that a replay reproduces them): distinct points in general position.
+    With coordinates calculate_cis_trans_from_2d has something to compute and the depiction is a pure reader (no clean2d call)."""
+    d = _digest('layout:' + key)
+    if not always and d[0] % 2:
+        return False
+    r = random.Random(d)
+    for i, a in enumerate(m._atoms.values()):
+        a.x = round(1.3 * (i % 7) + r.uniform(-.4, .4), 4)
+        a.y = round(1.1 * (i // 7) + r.uniform(-.4, .4), 4)
+    m.flush_cache()
+    return True
 
 
 def _tree_worker(item):
@@ -714,7 +929,10 @@ def _descend(res, name, smi, st, ops, reads, copies, depth, widths, on_copy_firs
     op = ops[-1]
     rng = random.Random(f'{env.SEED}:{name}:' + ';'.join(op_text(o) for o in ops))
     rd = pick_reads(rng)
-    st1, probs, changed = step(st, op, rd, on_copy_first)
+    ak = op[0] in ALLKEY_KINDS and rng.random() < .5
+    if ak:
+        rd = ('ALL-MEMBERS',) + tuple(rd)  # recorded in the witness: replay warms the whole cache too
+    st1, probs, changed = step(st, op, rd[1:] if ak else rd, on_copy_first, allkeys=ak)
     reads = reads + [rd]
     copies = copies + [on_copy_first]
     res['n'] += 1
@@ -753,6 +971,7 @@ def _linear_worker(item):
         m = parse(smi)
     except Exception:
         return _pack(res)
+    lay_out(m, smi)
     p, _, views = coherence(m)
     for f, d in p:
         _record(res, f + '@seed', d, name, smi, [], [], [])
@@ -772,11 +991,14 @@ def _linear_worker(item):
                 break
         op = rng.choice(c)
         rd = pick_reads(rng)
-        full = i % 5 == 4 or i == length - 1 or rng.random() < .3
+        ak = (op[0].startswith('x_') or op[0] in ALLKEY_KINDS) and rng.random() < .7
+        if op[0] == 'x_fix_structure':
+            ak = True  # a known stale-cache family: always checked in full at its own step, never left to a later operation
+        full = i % 5 == 4 or i == length - 1 or rng.random() < .3 or ak
         names = tuple(rd) if rd else ('str', 'atoms_order', 'sssr')
-        st1, probs, changed = step(st, op, rd, False, full=full, check_names=names)
+        st1, probs, changed = step(st, op, rd, False, full=full, check_names=names, allkeys=ak)
         ops.append(op)
-        reads.append(rd)
+        reads.append((('ALL-MEMBERS',) if ak else ()) + tuple(rd))
         res['n'] += 1
         if rd and changed:
             res['keys'].add(_digest(f'{smi}:{i}:{op_text(op)}'))
@@ -801,13 +1023,16 @@ def _linear_worker(item):
 def run_history(smi, ops, reads, copies, name=None, corpus=False):
     _imports()
     m = parse(smi) if corpus else _seed_molecule(name or smi, smi)
+    if corpus:
+        lay_out(m, smi)
     p, _, views = coherence(m)
     fams = [f + '@seed' for f, _ in p]
     st = State(m, [], views)
     for i, op in enumerate(ops):
         op = tuple(tuple(tuple(y) if isinstance(y, list) else y for y in x) if isinstance(x, list) else x for x in op)
         rd = tuple(reads[i]) if i < len(reads) else ()
-        st, probs, _ = step(st, op, rd, bool(copies[i]) if i < len(copies) else False)
+        ak = bool(rd) and rd[0] == 'ALL-MEMBERS'
+        st, probs, _ = step(st, op, rd[1:] if ak else rd, bool(copies[i]) if i < len(copies) else False, allkeys=ak)
         fams += [f for f, _ in probs]
         if probs:
             return fams
@@ -818,6 +1043,9 @@ def run_history(smi, ops, reads, copies, name=None, corpus=False):
 
 def replay(rec):
     w = rec['witness']
+    if 'part' in w:  # bounded/d13_extra.py
+        from bounded import d13_extra
+        return rec['key'] not in d13_extra.replay(w)
     fams = run_history(w['smiles'], w['ops'], w['reads'], w['copies'], name=w.get('seed'), corpus=w.get('seed', '').startswith('corpus['))
     fam = rec['key']
     return not any(f == fam or f.split('@edit-probe')[0] == fam.split('@edit-probe')[0] for f in fams)
@@ -832,6 +1060,12 @@ def bounded(run):
     n_lin = 200 if quick else 5000
     length = 30
     t0 = time.time()
+    import os
+
+    def cpu():
+        t = os.times()
+        return t.user + t.children_user
+    c0 = cpu()
 
     # --- exhaustive trees: one work item per (tree, seed, first operation)
     items = []
@@ -844,6 +1078,7 @@ def bounded(run):
     rnd('b13-order').shuffle(items)
     tree = pmap(_tree_worker, items)
     t1 = time.time()
+    c1 = cpu()
 
     # --- random histories
     cs = corpus_smiles()
@@ -851,6 +1086,7 @@ def bounded(run):
     pick = [(i, cs[i], length) for i in (r.randrange(len(cs)) for _ in range(n_lin))]
     lin = pmap(_linear_worker, pick, chunksize=4)
     t2 = time.time()
+    c2 = cpu()
 
     fails = {}
     n_tree = n_lin_steps = 0
@@ -872,6 +1108,44 @@ def bounded(run):
                     fails[f['family']] = f
                 else:
                     old['count'] += f['count']
+    # --- extra domains of the coverage audit (bounded/d13_extra.py): mutators outside engine F x keywords x warm cache, transactions, copies
+    from bounded import d13_extra as D
+    D._imports()
+    every = not quick
+    xs = list(D.X_SMILES)
+    n_corpus = 8 if quick else 100
+    cx = [cs[i] for i in (rnd('b13-x').randrange(len(cs)) for _ in range(n_corpus))]
+    x_items = [(smi, form, every, env.SEED) for smi in xs + cx for form in ('A', 'B')]
+    t_items = [(si, env.SEED, quick) for si in range(len(D.T_SEEDS) + len(D.T_ONLY))]
+    k_items = [(si, env.SEED, quick) for si in range(len(D.T_SEEDS) + len(D.K_EXTRA))]
+    extra = {}
+    counts = {}
+    cpus = {'tree': round(c1 - c0), 'linear': round(c2 - c1)}
+    t3 = time.time()
+    for part, worker, items in (('X', D.x_worker, x_items), ('T', D.t_worker, t_items), ('K', D.k_worker, k_items)):
+        c3 = cpu()
+        res = pmap(worker, items)
+        cpus[part] = round(cpu() - c3)
+        counts[part] = sum(r[0] for r in res)
+        for n, keys, fl in res:
+            run.case(n)
+            run.nontrivial.update(_digest(f'{part}:{k}') for k in keys)
+            for fam, detail, wit in fl:
+                old = extra.get(fam)
+                if old is None:
+                    extra[fam] = [detail, wit, 1]
+                else:
+                    old[2] += 1
+                    if len(repr(wit)) < len(repr(old[1])):  # the smallest witness (pmap keeps the order of the items: deterministic)
+                        old[0], old[1] = detail, wit
+    t4 = time.time()
+    for fam, (detail, wit, cnt) in sorted(extra.items()):
+        if fam in fails:  # the same family was met by a history: one report, the history is the witness
+            fails[fam]['count'] += cnt
+            continue
+        where = wit.get('op_text') or wit.get('text') or wit.get('producer')
+        run.violation(fam, f'{fam}: {detail} [part {wit["part"]}: {wit.get("smiles") or wit.get("seed")} {where}; {cnt} cases of this family]',
+                      witness=wit, native=detail)
     for fam, f in sorted(fails.items()):
         hk = history_key(f['seed'] if f['part'] == 'tree' else f['smiles'], [tuple(o) for o in f['ops']])
         run.violation(fam, f'{fam}: {f["detail"]} [{hk}; {f["count"]} histories of this family]',
@@ -886,6 +1160,19 @@ def bounded(run):
     run.bound(f'linear: {n_lin} seeded random histories of length {length} on corpus molecules (pach/lipophilicity.csv), alphabet + '
               f'{len(EXT_KINDS)} further public mutators on valence-valid states; {n_lin_steps} steps; all views compared every 5th step, at the end '
               f'and at random (30 %), the views just read otherwise')
+    nx = len(D.x_ops())
+    run.bound(f'part X: {nx} (mutator, keyword combination) pairs {sorted({o[0] for o in D.x_ops()})} on {len(xs)} designed + {n_corpus} corpus molecules x 2 forms '
+              f'(A aromatic form, B Kekule + explicit hydrogens + atom numbers with gaps in descending order; both with seeded 2D coordinates), all '
+              f'{len(K.members())} memoised members of the class warm before the call and compared with the rebuild afterwards; on a warm '
+              f'copy(keep_sssr=True, keep_components=True) (form A) / with a cold cache (form B) for {"every pair" if every else "a seeded 15 % of the pairs"}; '
+              f'{counts["X"]} calls; calculate_cis_trans_from_2d(clean_cache=False) and the stereo adders followed by flush_cache with every keep_* combination')
+    run.bound(f'part T: {len(D.T_SEEDS)} seed molecules + a single atom + the empty molecule x (one edit of each of {len(D.EDIT_KINDS)} kinds x commit / exception before / after x {len(D.EXC_KINDS)} '
+              f'exception sources {D.EXC_KINDS} x reads inside; {"24+12" if quick else "121+60"} seeded 2-/3-edit blocks with an exception at every later '
+              f'position; {3 if quick else 12} x 5 nested shapes) x (warm, cold) = {counts["T"]} blocks, expected state from an independent model')
+    run.bound(f'part K: {len(k_items)} molecules x producers (copy x 4 keep_* combinations, copy.copy, split, augmented_substructures, substructure '
+              f'default / recalculate_hydrogens=False / & / - / augmented, union x (remap, disjoint numbers, operator) x (copy, in place), flush_cache x 4 keep_* '
+              f'combinations without an edit and on the documented manual route after a charge / radical / isotope edit) x (warm, cold source) x '
+              f'{2 if quick else 6} following edits of the result or the source = {counts["K"]} cases')
     run.bound(f'views compared: {len(V.VIEW_NAMES)} derived values {V.VIEW_NAMES} + 7 calc_labels labels + stereo labels + hydrogen counts')
     run.assume('the rebuilt molecule (bounded.domains.rebuild through add_atom/add_bond + calc_labels) reports the reference value of every '
                'view: coherence is relative to the library\'s own functions on a fresh object, not to chemistry (C04/C06/C12 speak for that)',
@@ -894,6 +1181,18 @@ def bounded(run):
                'documented exceptions accepted under their precondition only: ' + '; '.join(f'{k}: {c} when {w}' for k, v in DOC_EXC.items() for c, _, w in v),
                'branching in the tree copies the node molecule (copy() is itself under contract at every branch); the last child of every '
                'node and all random histories continue on the object itself',
-               'non-trivial history = a non-empty set of views was read before an operation that changed the molecule (read-mutate-read)')
+               'non-trivial history = a non-empty set of views was read before an operation that changed the molecule (read-mutate-read)',
+               'every memoised member = what oracles/o13_allkeys.members() finds in the MRO of MoleculeContainer (functools / CachedMethods '
+               'cached_property objects, cached_method / cached_args_method wrappers; adjacency_matrix with (), (False,), (True,)); the depiction '
+               'cache is read only on molecules with 2D coordinates (otherwise depict() itself calls clean2d(), a mutator)',
+               'part T: the expected state of a block is computed by an independent model of the edits (bounded/d13_extra.Model); nested blocks: '
+               'an inner block that raises restores the state at ITS entry, an outer block that raises restores the state at the OUTER entry',
+               'part K: flush_cache(keep_sssr, keep_components) after an attribute edit outside a transaction followed by fix_structure() and '
+               'fix_stereo() is the documented manual route (Element.charge docstring); both flags are legitimate there (no bond changes)',
+               'fix_structure() whose recalculation changes a stored hydrogen count is its own family (predicate on the input, '
+               'fix_structure_changes_hydrogens); add_bond with order 8 is its own family (add_bond:coordinate)')
     run.notes['b13'] = {'tree_histories': n_tree, 'linear_steps': n_lin_steps, 'tree_s': round(t1 - t0, 1), 'linear_s': round(t2 - t1, 1),
-                        'families_failed': sorted(fails)}
+                        'extra_s': round(t4 - t3, 1), 'extra_cases': counts, 'cpu_s': cpus, 'families_failed': sorted(set(fails) | set(extra))}
+    if os.environ.get('B13_TIMES'):
+        import sys
+        print('b13 times', run.notes['b13'], file=sys.stderr)
